@@ -17,7 +17,7 @@ LEVEL = "fault_enumeration"
 DESIGN_REF = "4.8"
 RULE = (
     "cases = version (2.0/2.1/2.2) x 1-4 parked set commands with distinct keys over sleeping nodes 1 and 2 x a sequence of 1-4 wakes x a "
-    "set F of write-attempt indices (0-7) at which the transport raises TransportFailedError before recording. After the generated wakes, "
+    "set F of write-attempt indices (0-7) at which the transport raises a TransportError (TransportFailedError, the plain base class, or TransportReadError) before recording. After the generated wakes, "
     "fault-free wakes of both nodes are appended until nothing more is written. Oracle over the whole run: a listen step in which a write "
     "failed raises a TransportError; every parked command is successfully written exactly once and never attempted again afterwards; a "
     "command is only written at a wake of its own node; nothing else is written. Thorough enumerates every combination (5 keys, subsets of "
@@ -52,6 +52,7 @@ def strategy(tier: str):
             "parked": parked,
             "wakes": st.lists(st.sampled_from((1, 1, 2)), min_size=1, max_size=4),
             "faults": st.lists(st.integers(0, 7), max_size=4, unique=True).map(sorted),
+            "fault_class": st.sampled_from(("failed", "failed", "base", "read")),
         }
     )
 
@@ -73,7 +74,8 @@ def enumerate_cases(tier: str):
                     for wakes in itertools.product((1, 2), repeat=nw):
                         for mask in range(1 << max_attempt):
                             faults = [i for i in range(max_attempt) if mask >> i & 1]
-                            yield {"version": version, "parked": parked, "wakes": list(wakes), "faults": faults}
+                            yield {"version": version, "parked": parked, "wakes": list(wakes), "faults": faults,
+                                   "fault_class": ("failed", "base", "read")[(mask + size + nw) % 3]}
 
 
 def _run_race(case: dict) -> Outcome:
@@ -107,6 +109,9 @@ def run_case(case: dict) -> Outcome:
             if status != "ok" or transport.attempts:
                 return Outcome(ok=True, classes=("diverged-elsewhere",))  # parking itself is C07's subject
         transport.fail_attempts = set(case["faults"])
+        from aiomysensors.exceptions import TransportError as _TE, TransportFailedError as _TF, TransportReadError as _TR
+
+        transport.fail_exc = {"failed": _TF, "base": _TE, "read": lambda msg: _TR(OSError(msg))}[case.get("fault_class", "failed")]
         written: Counter = Counter()
         wakes = list(case["wakes"])
         generated = len(wakes)
